@@ -822,3 +822,281 @@ Proof.
     eapply bind_step; [eapply bind_step; [apply next_if_absent; solve [hn_tac] | reflexivity]|].
     cbn beta iota. step. step. reflexivity.
 Qed.
+
+(* ---------------------------------------------------------------------------------------------- *)
+(* StructReg = its MaskedIntReg twins                                                               *)
+
+(* GenICam 2.8.7: the entry's element if it is present, else the structure's *)
+Definition inh {A} (e s : option A) : option A := match e with Some x => Some x | None => s end.
+Definition inh_l {A} (e s : list A) : list A := match e with [] => s | _ :: _ => e end.
+
+Definition twin_eb (s e : eb Src) : eb Src :=
+  mkEb Src None (inh (eb_tooltip e) (eb_tooltip s)) (inh (eb_description e) (eb_description s))
+       (inh (eb_display_name e) (eb_display_name s)) (inh (eb_vis e) (eb_vis s)) (inh (eb_docu_url e) (eb_docu_url s))
+       (inh (eb_deprecated e) (eb_deprecated s)) (inh (eb_event e) (eb_event s)) (inh (eb_impl e) (eb_impl s))
+       (inh (eb_avail e) (eb_avail s)) (inh (eb_locked e) (eb_locked s)) (inh (eb_block e) (eb_block s))
+       (inh (eb_imposed e) (eb_imposed s)) (inh_l (eb_errors e) (eb_errors s)) (inh (eb_alias e) (eb_alias s))
+       (inh (eb_cast e) (eb_cast s)) [].
+
+(* the MaskedIntReg declaration equivalent to entry e of structure s (the entry's pInvalidator list stands in
+   its element base) *)
+Definition twin_src (s : structreg Src) (e : sentry Src) : maskedreg Src :=
+  let r := st_rb s in
+  mkMasked Src (se_attr e)
+    (mkRb Src (twin_eb (rb_eb r) (se_eb e)) (inh (se_streamable e) (rb_streamable r)) (rb_addrs r) (rb_length r)
+          (inh (se_access e) (rb_access r)) (rb_port r) (inh (se_cache e) (rb_cache r))
+          (inh (se_polling e) (rb_polling r)) (inh_l (eb_invs (se_eb e)) (rb_invs r)))
+    (se_mask e) (se_sign e) (st_endian s) (se_unit e) (se_repr e) (se_selected e).
+
+(* KNOWN limitation (finding): an entry that spells out a schema default cannot override a non-default value of
+   the structure, because the parsed entry no longer tells "absent" from "default" *)
+Definition lim {A} (is_default : A -> bool) (e s : option A) : bool :=
+  match e, s with Some x, Some y => is_default x && negb (is_default y) | _, _ => false end.
+Definition access_is (d : access) (a : access) : bool := access_eqb a d.
+Definition blit_is_no (b : blit) : bool := negb (bl_val b).
+Definition limited (s : structreg Src) (e : sentry Src) : bool :=
+  let r := st_rb s in
+  lim vis_is_default (eb_vis (se_eb e)) (eb_vis (rb_eb r)) ||
+  lim blit_is_no (eb_deprecated (se_eb e)) (eb_deprecated (rb_eb r)) ||
+  lim (access_is AmRW) (eb_imposed (se_eb e)) (eb_imposed (rb_eb r)) ||
+  lim (access_is AmRO) (se_access e) (rb_access r) ||
+  lim caching_is_default (se_cache e) (rb_cache r) ||
+  lim blit_is_no (se_streamable e) (rb_streamable r).
+
+Lemma merge_opt_inh {A B} (f : A -> B) (e s : option A) :
+  merge_opt (option_map f s) (option_map f e) = option_map f (inh e s).
+Proof. destruct e; reflexivity. Qed.
+Lemma merge_opt_inh_id {A} (e s : option A) : merge_opt s e = inh e s.
+Proof. destruct e; reflexivity. Qed.
+Lemma merge_vec_inh {A} (e s : list A) : merge_vec true s e = inh_l e s.
+Proof. destruct e; reflexivity. Qed.
+
+Lemma struct_desugar s :
+  eb_invs (rb_eb (st_rb s)) = [] -> Forall (fun e => limited s e = false) (st_entries s) ->
+  into_masked_int_regs true (n_struct s) = map (fun e => n_masked (twin_src s e)) (st_entries s).
+Proof.
+  intros HI F. unfold into_masked_int_regs, n_struct. cbn [st_rb st_endian st_entries].
+  rewrite map_map. apply map_ext_in. intros e He. rewrite Forall_forall in F. specialize (F e He).
+  unfold limited in F. repeat (apply orb_false_iff in F; destruct F as [F ?]).
+  destruct s as [r en es]. destruct r as [rbe rst rad rle rac rpo rca rpl riv].
+  destruct e as [ea ee ei eac eca epl est ema esg eun ere esl].
+  destruct rbe as [x1 x2 x3 x4 x5 x6 x7 x8 x9 x10 x11 x12 x13 x14 x15 x16 x17].
+  destruct ee as [y1 y2 y3 y4 y5 y6 y7 y8 y9 y10 y11 y12 y13 y14 y15 y16 y17].
+  cbn [st_rb rb_eb eb_invs eb_vis eb_deprecated eb_imposed se_eb se_access se_cache se_streamable rb_access
+       rb_cache rb_streamable] in *. subst x17.
+  unfold entry_to_masked, n_masked, twin_src, n_sentry, n_rb, n_eb, n_eb_noinv, twin_eb, merge_eb, nb.
+  cbn [st_rb st_endian rb_eb rb_streamable rb_addrs rb_length rb_access rb_port rb_cache rb_polling rb_invs
+       se_attr se_eb se_invs se_access se_cache se_polling se_streamable se_mask se_sign se_unit se_repr
+       se_selected mr_attr mr_rb mr_mask mr_sign mr_endian mr_unit mr_repr mr_selected
+       eb_ext eb_tooltip eb_description eb_display_name eb_vis eb_docu_url eb_deprecated eb_event eb_impl
+       eb_avail eb_locked eb_block eb_imposed eb_errors eb_alias eb_cast eb_invs].
+  rewrite !merge_opt_inh, !merge_opt_inh_id, !merge_vec_inh.
+  f_equal. f_equal.
+  - f_equal.
+    + destruct y5 as [[]|], x5 as [[]|]; try reflexivity; discriminate.
+    + destruct y7 as [[? []]|], x7 as [[? []]|]; try reflexivity; discriminate.
+    + destruct y13 as [[]|], x13 as [[]|]; try reflexivity; discriminate.
+  - destruct est as [[? []]|], rst as [[? []]|]; try reflexivity; discriminate.
+  - destruct eac as [[]|], rac as [[]|]; try reflexivity; discriminate.
+  - destruct eca as [[]|], rca as [[]|]; try reflexivity; discriminate.
+Qed.
+
+(* the pinned code (before 70ffa75): structure pInvalidator X, entry E0 pInvalidator Y, entry E1 none:
+   both entries end without invalidator and nothing is registered *)
+Definition eb0 : eb Src := mkEb Src None None None None None None None None None None None None None [] None None [].
+Definition refuted_struct : structreg Src :=
+  mkStruct Src (mkRb Src eb0 None [SaAddr (Imm (IL FmDec 256))] (Imm (IL FmDec 4)) None [68] None None [[88]]) None
+    [mkSentry Src (mkAttr Src [69; 48] None None None)
+              (mkEb Src None None None None None None None None None None None None None [] None None [[89]])
+              tt None None None None (BmBit (IL FmDec 0)) None None None [];
+     mkSentry Src (mkAttr Src [69; 49] None None None) eb0 tt None None None None (BmBit (IL FmDec 1)) None None None []].
+
+Lemma struct_v0_refuted :
+  exists s, wf_eb (rb_eb (st_rb s)) /\
+    (forall p, parse_node false 0 (render (SnStructReg s)) = Ok p ->
+       map (fun d => match d with NdMaskedIntReg m => rb_invs (mr_rb m) | _ => [[0]] end) (pr_ret p) = [[]; []] /\
+       pr_invs p = []) /\
+    (exists p, parse_node false 0 (render (SnStructReg s)) = Ok p) /\
+    (exists p, parse_node true 0 (render (SnStructReg s)) = Ok p /\
+       map (fun d => match d with NdMaskedIntReg m => rb_invs (mr_rb m) | _ => [[0]] end) (pr_ret p) = [[[89]]; [[88]]] /\
+       pr_invs p = [([89], [69; 48]); ([88], [69; 49])]).
+Proof.
+  exists refuted_struct. split; [exact Logic.I|]. split; [|split].
+  - intros p. vm_compute. intros H. apply Ok_inj in H. subst p. split; reflexivity.
+  - eexists. vm_compute. reflexivity.
+  - eexists. split; [vm_compute; reflexivity|]. split; reflexivity.
+Qed.
+
+(* ---------------------------------------------------------------------------------------------- *)
+(* declared node -> stored node, by kind                                                            *)
+
+Ltac node_tac H :=
+  cbn [render]; unfold r_plain, r_category, r_integer, r_boolean, r_command, r_float, r_stringn, r_port in *;
+  match goal with
+  | |- parse_node ?fx ?fr (Elem ?t ?a ?c) = _ => change (parse_node fx fr (Elem t a c)) with (parse_leaf fx fr t a c)
+  end;
+  unfold parse_leaf;
+  repeat match goal with
+         | |- context [str_eqb ?x ?y] => let b := eval vm_compute in (str_eqb x y) in change (str_eqb x y) with b
+         end;
+  cbn [orb]; cbv iota; rewrite H; reflexivity.
+
+Lemma node_plain fixed fresh n : wf_plain n ->
+  parse_node fixed fresh (render (SnNode n)) = Ok (pres1 fresh (NdNode (n_plain n))).
+Proof. intros W. pose proof (plain_rt n W) as H. node_tac H. Qed.
+Lemma node_category fixed fresh n : wf_category n ->
+  parse_node fixed fresh (render (SnCategory n)) = Ok (pres1 fresh (NdCategory (n_category n))).
+Proof. intros W. pose proof (category_rt n W) as H. node_tac H. Qed.
+Lemma node_integer fixed fresh n : wf_integer n ->
+  parse_node fixed fresh (render (SnInteger n)) = Ok (pres1 fresh (NdInteger (n_integer n))).
+Proof. intros W. pose proof (integer_rt n W) as H. node_tac H. Qed.
+Lemma node_boolean fixed fresh n : wf_boolean n ->
+  parse_node fixed fresh (render (SnBoolean n)) = Ok (pres1 fresh (NdBoolean (n_boolean n))).
+Proof. intros W. pose proof (boolean_rt n W) as H. node_tac H. Qed.
+Lemma node_command fixed fresh n : wf_command n ->
+  parse_node fixed fresh (render (SnCommand n)) = Ok (pres1 fresh (NdCommand (n_command n))).
+Proof. intros W. pose proof (command_rt n W) as H. node_tac H. Qed.
+Lemma node_float fixed fresh n : wf_float n ->
+  parse_node fixed fresh (render (SnFloat n)) = Ok (pres1 fresh (NdFloat (n_float n))).
+Proof. intros W. pose proof (float_rt n W) as H. node_tac H. Qed.
+Lemma node_string fixed fresh n : wf_stringn n ->
+  parse_node fixed fresh (render (SnString n)) = Ok (pres1 fresh (NdString (n_stringn n))).
+Proof. intros W. pose proof (stringn_rt n W) as H. node_tac H. Qed.
+Lemma node_port fixed fresh n : wf_port n ->
+  parse_node fixed fresh (render (SnPort n)) = Ok (pres1 fresh (NdPort (n_port n))).
+Proof. intros W. pose proof (port_rt n W) as H. node_tac H. Qed.
+
+(* the declared nodes of the kinds above, their well-formedness and what the store must hold for them *)
+Definition wf_snode (n : snode) : Prop :=
+  match n with
+  | SnNode x => wf_plain x | SnCategory x => wf_category x | SnInteger x => wf_integer x
+  | SnBoolean x => wf_boolean x | SnCommand x => wf_command x | SnFloat x => wf_float x
+  | SnString x => wf_stringn x | SnPort x => wf_port x
+  | _ => False
+  end.
+Definition normalise (n : snode) : list node_data :=
+  match n with
+  | SnNode x => [NdNode (n_plain x)] | SnCategory x => [NdCategory (n_category x)]
+  | SnInteger x => [NdInteger (n_integer x)] | SnBoolean x => [NdBoolean (n_boolean x)]
+  | SnCommand x => [NdCommand (n_command x)] | SnFloat x => [NdFloat (n_float x)]
+  | SnString x => [NdString (n_stringn x)] | SnPort x => [NdPort (n_port x)]
+  | _ => []
+  end.
+Definition declared_name (n : snode) : str :=
+  match n with
+  | SnNode x => a_name (pl_attr x) | SnCategory x => a_name (ca_attr x) | SnInteger x => a_name (i_attr x)
+  | SnBoolean x => a_name (b_attr x) | SnCommand x => a_name (c_attr x) | SnFloat x => a_name (f_attr x)
+  | SnString x => a_name (s_attr x) | SnPort x => a_name (po_attr x)
+  | _ => []
+  end.
+Definition kind_code (d : node_data) : Z := hd 0 (sh_body d).
+Definition declared_kind (n : snode) : Z :=
+  match n with
+  | SnNode _ => 0 | SnCategory _ => 1 | SnInteger _ => 2 | SnBoolean _ => 5 | SnCommand _ => 6 | SnFloat _ => 9
+  | SnString _ => 11 | SnPort _ => 18 | _ => -1
+  end.
+
+Lemma roundtrip_partial fixed fresh n : wf_snode n ->
+  parse_node fixed fresh (render n) = Ok (mkPres [] (normalise n) [] fresh).
+Proof.
+  destruct n; cbn [wf_snode normalise]; intros W; try contradiction;
+    [ apply node_plain | apply node_category | apply node_integer | apply node_boolean | apply node_command
+    | apply node_float | apply node_string | apply node_port ]; exact W.
+Qed.
+
+Lemma names_partial n : wf_snode n ->
+  exists d, normalise n = [d] /\ nd_name d = declared_name n /\ kind_code d = declared_kind n.
+Proof. destruct n; cbn [wf_snode]; intros W; try contradiction; eexists; repeat split. Qed.
+
+(* ---------------------------------------------------------------------------------------------- *)
+(* Group                                                                                            *)
+
+(* the element children parsed one after the other, the fresh id threaded through *)
+Fixpoint seq_results (fixed : bool) (fresh : Z) (c : list xml) : outcome (list presult) :=
+  match c with
+  | [] => Ok []
+  | Elem t a ch :: r => let? p := parse_node fixed fresh (Elem t a ch) in
+                        let? ps := seq_results fixed (pr_fresh p) r in Ok (p :: ps)
+  | _ :: r => seq_results fixed fresh r
+  end.
+
+Definition group_go (fixed : bool) :=
+  fix go (c : list xml) (acc : presult) {struct c} : outcome presult :=
+    match c with
+    | [] => Ok acc
+    | y :: r => match y with
+                | Elem _ _ _ => let? p := parse_node fixed (pr_fresh acc) y in go r (pres_app acc p)
+                | _ => go r acc
+                end
+    end.
+
+Lemma group_unfold fixed fresh attrs ch :
+  parse_node fixed fresh (Elem T_Group attrs ch) = group_go fixed ch (mkPres [] [] [] fresh).
+Proof. reflexivity. Qed.
+
+Lemma group_go_seq fixed : forall c acc p, group_go fixed c acc = Ok p ->
+  exists rs, seq_results fixed (pr_fresh acc) c = Ok rs /\
+    pr_stored p = pr_stored acc ++ List.concat (map pr_stored rs) /\
+    pr_ret p = pr_ret acc ++ List.concat (map pr_ret rs) /\
+    pr_invs p = pr_invs acc ++ List.concat (map pr_invs rs) /\
+    pr_fresh p = fold_left (fun _ q => pr_fresh q) rs (pr_fresh acc).
+Proof.
+  induction c as [|y r IH]; intros acc p H.
+  - cbn in H. apply Ok_inj in H. subst p. exists []. cbn. rewrite !app_nil_r. repeat split.
+  - destruct y as [t a ch| |]; cbn [group_go] in H; fold (group_go fixed) in H; cbn [seq_results].
+    + destruct (parse_node fixed (pr_fresh acc) (Elem t a ch)) as [q| |] eqn:E; cbn [bind] in H; try discriminate.
+      destruct (IH _ _ H) as (rs & R1 & R2 & R3 & R4 & R5). cbn [pres_app pr_fresh pr_stored pr_ret pr_invs] in *.
+      cbn [bind]. rewrite R1. cbn [bind]. exists (q :: rs). cbn [map List.concat fold_left].
+      rewrite R2, R3, R4, R5, <- !app_assoc. repeat split.
+    + exact (IH _ _ H).
+    + exact (IH _ _ H).
+Qed.
+
+Lemma perm_interleave {A} (l : list (list A * list A)) :
+  Permutation (List.concat (map fst l) ++ List.concat (map snd l)) (List.concat (map (fun p => fst p ++ snd p) l)).
+Proof.
+  induction l as [|[a b] l IH]; cbn; [constructor|].
+  rewrite <- !app_assoc. apply Permutation_app_head.
+  rewrite app_assoc. rewrite (Permutation_app_comm (List.concat (map fst l)) b). rewrite <- app_assoc.
+  apply Permutation_app_head. exact IH.
+Qed.
+
+Lemma group_flat fixed fresh attrs ch p : parse_node fixed fresh (Elem T_Group attrs ch) = Ok p ->
+  exists rs, seq_results fixed fresh ch = Ok rs /\
+    Permutation (pr_stored p ++ pr_ret p) (List.concat (map (fun q => pr_stored q ++ pr_ret q) rs)) /\
+    pr_invs p = List.concat (map pr_invs rs) /\
+    pr_fresh p = fold_left (fun _ q => pr_fresh q) rs fresh.
+Proof.
+  rewrite group_unfold. intros H. destruct (group_go_seq fixed _ _ _ H) as (rs & R1 & R2 & R3 & R4 & R5).
+  cbn [pr_stored pr_ret pr_invs pr_fresh app] in *. exists rs. split; [exact R1|]. split; [|split; assumption].
+  rewrite R2, R3. pose proof (perm_interleave (map (fun q => (pr_stored q, pr_ret q)) rs)) as P.
+  rewrite !map_map in P. cbn [fst snd] in P. exact P.
+Qed.
+
+(* the document level: the members at top level are stored child by child *)
+Lemma store_all_app st a : forall b, store_all st (a ++ b) = (let? s1 := store_all st a in store_all s1 b).
+Proof.
+  revert st. induction a as [|d a IH]; intros st b; cbn [store_all app bind]; [reflexivity|].
+  destruct (existsb _ st); [reflexivity | apply IH].
+Qed.
+
+Lemma children_seq fixed : forall c fresh st rs, seq_results fixed fresh c = Ok rs ->
+  parse_children fixed c fresh st =
+  (let? ns := store_all (s_nodes st) (List.concat (map (fun q => pr_stored q ++ pr_ret q) rs)) in
+   Ok (mkStore ns (s_invs st ++ List.concat (map pr_invs rs)))).
+Proof.
+  induction c as [|y r IH]; intros fresh st rs H.
+  - cbn in H. apply Ok_inj in H. subst rs. cbn. rewrite app_nil_r. destruct st; reflexivity.
+  - destruct y as [t a ch| |]; cbn [seq_results parse_children] in *.
+    + destruct (parse_node fixed fresh (Elem t a ch)) as [q| |] eqn:E; cbn [bind] in *; try discriminate.
+      destruct (seq_results fixed (pr_fresh q) r) as [qs| |] eqn:E2; cbn [bind] in H; try discriminate.
+      apply Ok_inj in H. subst rs. cbn [map List.concat].
+      rewrite (store_all_app (s_nodes st) (pr_stored q ++ pr_ret q)).
+      destruct (store_all (s_nodes st) (pr_stored q ++ pr_ret q)) as [ns| |]; cbn [bind]; try reflexivity.
+      rewrite (IH _ _ _ E2). cbn [s_nodes s_invs]. now rewrite <- app_assoc.
+    + exact (IH _ _ _ H).
+    + exact (IH _ _ _ H).
+Qed.
+
+Lemma text_view_v0_refuted : text_view_v0 [] = Panic /\ (forall s, text_view_v0 [Comment s] = Ok s).
+Proof. split; reflexivity. Qed.
